@@ -107,9 +107,16 @@ func (m *memEventBus) publishTopic(name string, src <-chan cmtrpctypes.ResultEve
 	for {
 		msg, ok := <-src
 		if !ok {
-			m.closeAllSubscribers(name)
 			m.topicsMux.Lock()
+			if cur, exists := m.topics[name]; exists && cur != src {
+				// the topic was registered again with a new source while this publisher was shutting down:
+				// the new topic and its subscribers belong to the new publisher
+				m.topicsMux.Unlock()
+				return
+			}
 			delete(m.topics, name)
+			// still holding the topics lock so a re-registration cannot slip in before the subscribers are closed
+			m.closeAllSubscribers(name)
 			m.topicsMux.Unlock()
 			return
 		}
